@@ -418,8 +418,11 @@ async fn interp(world: Arc<World>, steps: Vec<Step>) -> Outcome {
                     out.nontrivial = true;
                 }
                 let w = wrapper.take().unwrap();
-                if matches!(step, Step::PanicDrop) {
+                let unwinding = matches!(step, Step::PanicDrop);
+                if unwinding {
                     out.labels.push("drop:by-unwinding".into());
+                }
+                if unwinding && !running {
                     let world2 = world.clone();
                     let h = tokio::spawn(tracked(&world, async move {
                         let _owned = w;
@@ -439,10 +442,24 @@ async fn interp(world: Arc<World>, steps: Vec<Step>) -> Outcome {
                         {
                             let mut g = lock(&world3.w);
                             g.async_threads.insert(format!("{:?}", std::thread::current().id()));
-                            g.trace.push(format!("wrapper dropped on {:?} (a thread of its own)", std::thread::current().id()));
+                            g.trace.push(format!(
+                                "wrapper dropped on {:?} (a thread of its own{})",
+                                std::thread::current().id(),
+                                if unwinding { ", while it unwinds" } else { "" }
+                            ));
                         }
-                        drop(w);
-                        let _ = tx.send(());
+                        // reports when the wrapper's drop has returned, also during unwinding
+                        struct Done(std::sync::mpsc::Sender<()>);
+                        impl Drop for Done {
+                            fn drop(&mut self) {
+                                let _ = self.0.send(());
+                            }
+                        }
+                        let _done = Done(tx);
+                        let _owned = w; // dropped before `_done`
+                        if unwinding {
+                            std::panic::panic_any(Injected);
+                        }
                     });
                     let mut returned = false;
                     for _ in 0..3000 {
